@@ -121,6 +121,39 @@ def mutate_page_header_field(rng, data, f):
     if not fields:
         return None
     sizes = [x for x in fields if x[0] in ((1,), (2,)) or (len(x[0]) == 3 and x[0][1] == 's' and x[0][2] == 0)]   # (un)compressed size, num_values
+    if rng.random() < 0.2:
+        # two fields inflated consistently with each other (num_values and uncompressed_page_size = num_values x width) while the
+        # compressed size stays true: checks that compare the wrong pair of fields are satisfied by this
+        top = {fid: (i,) for i, (fid, t, v) in enumerate(pg.tree)}
+        inner = None
+        for i, (fid, t, v) in enumerate(pg.tree):
+            if fid == 5 and t == T_STRUCT:
+                for j, (f2, t2, v2) in enumerate(v):
+                    if f2 == 1:
+                        inner = (i, 's', j)
+        if inner is not None and 2 in top:
+            N = rng.choice([1000, 4096, 65536, 200000, pg.comp + 1, 2 * pg.comp + 7, rng.randrange(2, 300000)])
+            w = rng.choice([1, 4, 8, 12, 16])
+            t2 = _set(pg.tree, inner, (1, T_I32, N))
+            t2 = _set(t2, top[2], (2, T_I32, min(2**31 - 1, N * w)))
+            hdr = T.encode_struct(t2)
+            delta = len(hdr) - pg.header_size
+            tree = _shift_footer_offsets(f.tree, pg.offset, delta, (gi, ci)) if delta else f.tree
+            if rng.random() < 0.5:
+                # let the chunk metadata agree with the page (the reader clamps to the chunk's value count otherwise)
+                try:
+                    rgp = next(i for i, (fid, t, v) in enumerate(tree) if fid == 4)
+                    cols = tree[rgp][2][1][gi]
+                    ccp = next(i for i, (fid, t, v) in enumerate(cols) if fid == 1)
+                    cc = cols[ccp][2][1][ci]
+                    mdp = next(i for i, (fid, t, v) in enumerate(cc) if fid == 3)
+                    nvp = next(i for i, (fid, t, v) in enumerate(cc[mdp][2]) if fid == 5)
+                    tree = _set(tree, (rgp, 'l', gi, ccp, 'l', ci, mdp, 's', nvp), (5, T_I64, N))
+                except StopIteration:
+                    pass
+            fb = T.encode_struct(tree)
+            body = data[:pg.offset] + hdr + data[pg.body:f.footer_start]
+            return body + fb + struct.pack('<I', len(fb)) + b'PAR1', 'page-header-consistent-inflation'
     n = 1 if rng.random() < 0.75 else 2
     plan = []
     for _ in range(n):
@@ -278,3 +311,31 @@ def _get(tree, path):
     if path[1] == 's':
         return _get(v, path[2:])
     return _get(v[1][path[2]], path[3:])
+
+
+def big_garbage_page(rng, data, f, pad_bytes=17 * 1024 * 1024, fill=0xFF):
+    """a file of more than 16 MiB in which one chunk's first page offset points into a long stretch of garbage: whatever window a
+    reader grows while looking for a page header, it must give up"""
+    tree = f.tree
+    try:
+        rgp = next(i for i, (fid, t, v) in enumerate(tree) if fid == 4)
+        gi = 0
+        cols = tree[rgp][2][1][gi]
+        ccp = next(i for i, (fid, t, v) in enumerate(cols) if fid == 1)
+        ci = rng.randrange(len(cols[ccp][2][1]))
+        cc = cols[ccp][2][1][ci]
+        mdp = next(i for i, (fid, t, v) in enumerate(cc) if fid == 3)
+        md = cc[mdp][2]
+        dpp = next(i for i, (fid, t, v) in enumerate(md) if fid == 9)
+    except (StopIteration, IndexError, ValueError):
+        return None
+    target = f.footer_start + rng.choice([0, 1, 100, 4096, pad_bytes // 2])
+    t2 = _set(tree, (rgp, 'l', gi, ccp, 'l', ci, mdp, 's', dpp), (9, T_I64, target))
+    md2 = _get(t2, (rgp, 'l', gi, ccp, 'l', ci, mdp))[2]
+    for i, (fid, t, v) in enumerate(md2):
+        if fid == 11:
+            t2 = _set(t2, (rgp, 'l', gi, ccp, 'l', ci, mdp, 's', i), None)
+            break
+    fb = T.encode_struct(t2)
+    pad = bytes([fill]) * pad_bytes if fill is not None else bytes(rng.randrange(256) for _ in range(4096)) * (pad_bytes // 4096)
+    return data[:f.footer_start] + pad + fb + struct.pack('<I', len(fb)) + b'PAR1', 'file-over-16MiB-with-garbage-page'
